@@ -1,24 +1,31 @@
-(** Correspondence cases for C02: one case = one history of oracle operations driven on the real
-    skyway keeper; after every operation the harness records the projected state of the real
-    stores.  [check] replays the history on the model (Skyway/Oracle.v) with the SAME step function
-    the theorems quantify over and compares after every step. *)
+(** Correspondence cases for C02: one case = one multi-chain history of oracle operations driven on
+    the real skyway keeper (three remote chains over one staking module).  Every operation carries
+    its address ([Some c] = chain c, [None] = global: staking powers / bonded set / genesis
+    round trip) and the projected state of the real stores of ONE chain after it (the addressed
+    chain; chain 0 for a global operation).  That the OTHER chains' stores did not change is checked
+    by the harness on the real state; every history ends with an operation on each chain, so each
+    chain's final state is compared.  [check] replays the history with the SAME [mstep] / [step] the
+    theorems quantify over and compares after every step. *)
 From Coq Require Import List ZArith Bool.
-From Paloma Require Import Base.Corr Base.Num Skyway.Oracle.
+From Paloma Require Import Base.Corr Base.Num Skyway.Oracle Skyway.OracleChains.
 Import ListNotations.
 Open Scope Z_scope.
 
 Record obs := mkObs {
+  o_chain : Z;                          (* the chain whose stores were read *)
   o_ok : bool;                          (* operation accepted / tally returned nil *)
   o_last : Z;                           (* GetLastObservedSkywayNonce *)
   o_height : Z;                         (* GetLastObservedEthereumBlockHeight.EthereumBlockHeight *)
   o_compass : Z;                        (* GetLatestCompassID *)
-  (* the three lists are recorded only when they differ from the previous step's (None = unchanged) *)
+  (* the lists are recorded only when they differ from this chain's previous record (None = unchanged) *)
   o_atts : option (list (Z * Z * list Z * bool)); (* IterateAttestations: nonce, hash rank, Votes, Observed (store order) *)
   o_vn : option (list (Z * Z));         (* IterateValidatorLastEventNonces, by validator index *)
-  o_bal : option (list (Z * Z))         (* minted balance of every receiver *)
+  o_bal : option (list (Z * Z));        (* bank balance of every receiver (all chains together) *)
+  o_bat : option (list (Z * Z));        (* pending batches of this chain: token, batch nonce *)
+  o_lic : option (list (Z * Z))         (* licences of this chain's clients: client, amount *)
 }.
 
-Inductive case := CHist (steps : list (op * obs)).
+Inductive case := CHist (steps : list (option Z * op * obs)).
 
 Definition outcome (s : state) (o : op) : bool :=
   match o with
@@ -42,27 +49,52 @@ Fixpoint atts_eqb (l : list (Z * Z * att)) (m : list (Z * Z * list Z * bool)) : 
   | _, _ => false
   end.
 
-Record prev := mkPrev { p_atts : list (Z * Z * list Z * bool); p_vn : list (Z * Z); p_bal : list (Z * Z) }.
+Record prev := mkPrev {
+  p_atts : list (Z * Z * list Z * bool); p_vn : list (Z * Z); p_bal : list (Z * Z);
+  p_bat : list (Z * Z); p_lic : list (Z * Z) }.
+
+Definition prev0 : prev := mkPrev [] [] [] [] [].
+
+Definition sel {A} (o : option A) (d : A) : A := match o with Some x => x | None => d end.
 
 Definition next_prev (p : prev) (o : obs) : prev :=
-  mkPrev (match o_atts o with Some x => x | None => p_atts p end)
-         (match o_vn o with Some x => x | None => p_vn p end)
-         (match o_bal o with Some x => x | None => p_bal p end).
+  mkPrev (sel (o_atts o) (p_atts p)) (sel (o_vn o) (p_vn p)) (sel (o_bal o) (p_bal p))
+         (sel (o_bat o) (p_bat p)) (sel (o_lic o) (p_lic p)).
 
-Definition obs_ok (s : state) (ok : bool) (o : obs) (p : prev) : bool :=
+Fixpoint get_prev (l : list (Z * prev)) (c : Z) : prev :=
+  match l with [] => prev0 | (c', p) :: r => if c =? c' then p else get_prev r c end.
+Fixpoint set_prev (l : list (Z * prev)) (c : Z) (p : prev) : list (Z * prev) :=
+  match l with
+  | [] => [(c, p)]
+  | (c', p') :: r => if c =? c' then (c, p) :: r else (c', p') :: set_prev r c p
+  end.
+
+(** The bank does not know chains: a receiver holds what all chains' deposits minted to it. *)
+Definition total_bal (m : mstate) (r : Z) : Z := zsum (map (fun cs => zget0 (bal (snd cs)) r) m).
+
+Definition obs_ok (m : mstate) (s : state) (ok : bool) (o : obs) (p : prev) : bool :=
   Bool.eqb ok (o_ok o) && (last_obs s =? o_last o) && (last_height s =? o_height o)
   && (compass s =? o_compass o) && atts_eqb (atts s) (p_atts p)
   && list_eqb zz_eqb (vnonce s) (p_vn p)
-  && forallb (fun kv => zget0 (bal s) (fst kv) =? snd kv) (p_bal p).
+  && forallb (fun kv => total_bal m (fst kv) =? snd kv) (p_bal p)
+  && list_eqb zz_eqb (map fst (batches s)) (p_bat p)
+  && list_eqb zz_eqb (lic s) (p_lic p).
 
-Fixpoint replay (s : state) (p : prev) (l : list (op * obs)) : bool :=
+(** The three chains of the harness. *)
+Definition chain_ids : list Z := [0; 1; 2].
+
+Fixpoint replay (m : mstate) (ps : list (Z * prev)) (l : list (option Z * op * obs)) : bool :=
   match l with
   | [] => true
-  | (o, b) :: r =>
-      let s' := step s o in
-      let p' := next_prev p b in
-      obs_ok s' (outcome s o) b p' && replay s' p' r
+  | (tag, o, b) :: r =>
+      let c := o_chain b in
+      let ok := outcome (chain_state m (match tag with Some c' => c' | None => c end)) o in
+      let m' := mstep m (tag, o) in
+      let p' := next_prev (get_prev ps c) b in
+      (* the record must be of the addressed chain *)
+      (match tag with Some c' => c' =? c | None => true end)
+      && obs_ok m' (chain_state m' c) ok b p' && replay m' (set_prev ps c p') r
   end.
 
 Definition check (c : case) : bool :=
-  match c with CHist steps => replay init (mkPrev [] [] []) steps end.
+  match c with CHist steps => replay (minit chain_ids) [] steps end.
